@@ -397,6 +397,63 @@ func DivGuard(w *load.World, c *core.Collector) {
 	})
 }
 
+// lengthGated: block b of f lies behind an edge on which the analysed document's length is not
+// zero — in f, or at every call site of f (the counting moved into "insertDoc").
+func lengthGated(w *load.World, f *ssa.Function, b *ssa.BasicBlock, depth int) bool {
+	for _, tb := range f.Blocks {
+		ifi, ok := tb.Instrs[len(tb.Instrs)-1].(*ssa.If)
+		if !ok {
+			continue
+		}
+		cb, neg, ok := condBinOp(ifi.Cond, 0)
+		if !ok {
+			continue
+		}
+		var other ssa.Value
+		switch {
+		case ssax.Prov(cb.X)["field:Length"]:
+			other = cb.Y
+		case ssax.Prov(cb.Y)["field:Length"]:
+			other = cb.X
+		default:
+			continue
+		}
+		z, isZ := other.(*ssa.Const)
+		if !isZ || z.Value == nil || z.Int64() != 0 {
+			continue
+		}
+		edge := -1
+		switch cb.Op {
+		case token.GTR, token.NEQ, token.LSS: // len > 0, len != 0, 0 < len
+			edge = 0
+		case token.EQL, token.LEQ, token.GEQ: // len == 0, len <= 0, 0 >= len
+			edge = 1
+		}
+		if edge < 0 {
+			continue
+		}
+		if neg {
+			edge = 1 - edge
+		}
+		if ssax.OnlyViaEdge(tb, edge, b) {
+			return true
+		}
+	}
+	if depth >= 2 {
+		return false
+	}
+	sites := staticCallSites(w, f)
+	if len(sites) == 0 {
+		return false
+	}
+	for _, s := range sites {
+		if !lengthGated(w, s.Parent(), s.Block(), depth+1) {
+			return false
+		}
+	}
+	return true
+}
+
 // corpusSize: the number of documents of a text index is a statistic: it enters the idf formula
 // and is counted up and down, nothing is decided by comparing with it (a term "that every document
 // has" still contributes — its idf is negative, not zero); and it is counted up only for a
@@ -447,46 +504,7 @@ func corpusSize(w *load.World, c *core.Collector) {
 						continue
 					}
 					nInc++
-					gated := false
-					for _, tb := range f.Blocks {
-						ifi, ok := tb.Instrs[len(tb.Instrs)-1].(*ssa.If)
-						if !ok {
-							continue
-						}
-						cb, neg, ok := condBinOp(ifi.Cond, 0)
-						if !ok {
-							continue
-						}
-						var other ssa.Value
-						switch {
-						case ssax.Prov(cb.X)["field:Length"]:
-							other = cb.Y
-						case ssax.Prov(cb.Y)["field:Length"]:
-							other = cb.X
-						default:
-							continue
-						}
-						z, isZ := other.(*ssa.Const)
-						if !isZ || z.Value == nil || z.Int64() != 0 {
-							continue
-						}
-						edge := -1
-						switch cb.Op {
-						case token.GTR, token.NEQ, token.LSS: // len > 0, len != 0, 0 < len
-							edge = 0
-						case token.EQL, token.LEQ, token.GEQ: // len == 0, len <= 0, 0 >= len
-							edge = 1
-						}
-						if edge < 0 {
-							continue
-						}
-						if neg {
-							edge = 1 - edge
-						}
-						if ssax.OnlyViaEdge(tb, edge, b) {
-							gated = true
-						}
-					}
+					gated := lengthGated(w, f, b, 0)
 					if !gated {
 						badInc = w.At(in)
 					}
@@ -1328,7 +1346,24 @@ func quotaOverAllShards(w *load.World, c *core.Collector) {
 	}
 	n := 0
 	bad := ""
+	// the function, its literals, and helpers of the package that are handed a list of shards
+	scope := append([]*ssa.Function{f}, f.AnonFuncs...)
+	handed := map[*ssa.Function][]ssa.CallInstruction{}
 	for _, g := range append([]*ssa.Function{f}, f.AnonFuncs...) {
+		for _, b := range g.Blocks {
+			for _, in := range b.Instrs {
+				h := ssax.StaticModuleCallee(in)
+				if h == nil || load.PkgPath(h) != load.PkgPath(f) || len(h.Blocks) == 0 {
+					continue
+				}
+				if len(handed[h]) == 0 {
+					scope = append(scope, h)
+				}
+				handed[h] = append(handed[h], in.(ssa.CallInstruction))
+			}
+		}
+	}
+	for _, g := range scope {
 		for _, b := range g.Blocks {
 			for _, in := range b.Instrs {
 				bo, ok := in.(*ssa.BinOp)
@@ -1391,6 +1426,40 @@ func quotaOverAllShards(w *load.World, c *core.Collector) {
 						}
 					}
 					break
+				}
+				// in a helper: what its callers hand it for that parameter
+				if par, isPar := coll.(*ssa.Parameter); isPar && len(handed[g]) > 0 {
+					idx := -1
+					for i, q := range g.Params {
+						if q == par {
+							idx = i
+						}
+					}
+					var args []ssa.Value
+					for _, cs := range handed[g] {
+						if idx >= 0 && idx < len(cs.Common().Args) {
+							args = append(args, cs.Common().Args[idx])
+						}
+					}
+					if len(args) != 1 {
+						if bad == "" {
+							bad = w.At(in) + " (the helper that sums is handed more than one list)"
+						}
+						continue
+					}
+					coll = args[0]
+					for i := 0; i < 4; i++ {
+						if ld, ok := coll.(*ssa.UnOp); ok && ld.Op == token.MUL {
+							if al, ok := ld.X.(*ssa.Alloc); ok {
+								if sv := ssax.SingleStore(al); sv != nil {
+									coll = sv
+									continue
+								}
+								bad = w.At(in) + " (the list is assigned more than once)"
+							}
+						}
+						break
+					}
 				}
 				src := coll
 				if ex, ok := src.(*ssa.Extract); ok {
